@@ -632,3 +632,7 @@ mod tests {
         ));
     }
 }
+
+#[cfg(all(test, pendulum_project_ntpd_rs_verif))]
+#[path = "/verif/harness/ntp_proto/probe_v5.rs"]
+pub(crate) mod verif_probe;
